@@ -596,7 +596,7 @@ func (m *Machine) opSwap(t *rapid.T, adversarial bool) bool {
 
 func (m *Machine) opMeltQuote(t *rapid.T) bool {
 	w := m.W
-	kind := rapid.SampledFrom([]string{"external", "external", "external_msat", "internal", "mpp", "internal_mpp"}).Draw(t, "mq_kind")
+	kind := rapid.SampledFrom([]string{"external", "external", "external_msat", "internal", "internal", "mpp", "internal_mpp", "internal_mpp"}).Draw(t, "mq_kind")
 	switch kind {
 	case "internal_mpp":
 		// partial payment of an invoice of this very mint (any quote state): must be refused
@@ -757,6 +757,22 @@ func (m *Machine) opMelt(t *rapid.T, adversarial bool) bool {
 		m.honestFail("melt", err)
 	} else {
 		m.Count["melt_"+r.State.String()]++
+	}
+	// a melt of an invoice of this very mint: follow up (one time in two) with a mint request on that mint quote,
+	// fresh outputs for its full amount. Whether this is legitimate (the melt paid a so far unpaid quote) or not (the
+	// quote was issued before, or the melt covered only a part) is judged by the model's payment / value accounting.
+	if q.InternalTo >= 0 && q.InternalTo < len(w.M.MintQuotes) && rapid.Bool().Draw(t, "mint_after_internal_melt") {
+		mq := w.M.MintQuotes[q.InternalTo]
+		if mq.Amount <= 1<<20 && len(w.M.Order) <= m.Opt.MaxProofs+20 {
+			sig := ""
+			outs := w.MakeOutputs(world.Split(mq.Amount), w.ActiveID)
+			if mq.LockPriv != nil {
+				sig = world.SignNut20(mq.LockPriv, mq.ID, world.Msgs(outs))
+			}
+			_, e := w.MintTokens(mq, outs, sig)
+			m.Count["mint_after_internal_melt"]++
+			m.logf("  mint on the internally settled mint quote %d (payments %d, issuances %d): err=%v", mq.Idx, mq.Payments(), mq.Issuances, e)
+		}
 	}
 	return true
 }
